@@ -758,6 +758,8 @@ def build(chk: Check) -> None:
     C.phsp_factor_history(chk, RL, FK + "RelativisticKMatrix.formulate")
     C.phsp_factor_history(chk, RL, FK + "RelativisticKMatrix.formulate", {"return_t_hat": True})
 
+    abs_variant_all_pole_masses(chk, ells)
+
     # the statement without the requirement on the pole masses
     width_findings(chk, ells)
     formulate_findings(chk)
@@ -775,3 +777,59 @@ def build(chk: Check) -> None:
     tr = KTr("st3", kinds={"K": "real"})
     Tf = C.frac(tr, t_m)
     chk.mustfail("selftest.NonRelativisticKMatrix.symmetric_for_nonsymmetric_K", C.wd_conds(tr) + tr.hyps(), Tf[0][1].eq(Tf[1][0]), function=FK + "NonRelativisticKMatrix._create_matrices")
+
+
+# ======================================================================================================================
+# PhaseSpaceFactorAbs: the variant for which the statement holds WITHOUT the requirement on the pole masses
+# ======================================================================================================================
+def abs_variant_all_pole_masses(chk: Check, ells) -> None:
+    """With phsp_factor=PhaseSpaceFactorAbs the energy-dependent width is real for EVERY real pole mass (rho = 2 sqrt|q^2| / sqrt|s| is
+    real everywhere), so K is real and T unitary above the thresholds also when a pole lies below a threshold or below a pseudo-threshold
+    |m_a - m_b| -- the part of the statement's domain the other factors do not reach (known finding). E1 on the unfolded real tree for the
+    width; the real formulate() numerically at poles below threshold and below pseudo-threshold (bounded)."""
+    from ampform.dynamics.phasespace import PhaseSpaceFactorAbs
+
+    s, m1, m2, m0, g0 = sp.symbols("s m1 m2 m0 Gamma0", real=True)
+    fn = FD + "EnergyDependentWidth.evaluate"
+
+    def numeric_rep(ell):
+        def rep(model=None):
+            rng = np.random.default_rng(9090 + ell)
+            worst = None
+            for k in range(8):
+                n = 2
+                vals = C.sample_point(rng, n, 2)
+                # channel 1 with unequal masses; pole 1 below its pseudo-threshold (k even) or between pseudo-threshold and threshold (k odd)
+                vals["m_a_1"], vals["m_b_1"] = 1.1, 0.2
+                vals["m_1"] = 0.7 if k % 2 == 0 else 1.0
+                vals["s"] = float((1.35 + 0.3 * k) ** 2)
+                try:
+                    T = _t_numeric(RL, n, 2, {"angular_momentum": ell, "phsp_factor": PhaseSpaceFactorAbs}, vals)
+                except Exception as e:  # noqa: BLE001
+                    return {"reproduced": True, "input": vals, "observed": f"{type(e).__name__}: {e}"[:200]}
+                if not np.all(np.isfinite(T)):
+                    continue
+                ud, sd = C.unit_defect(T), C.sym_defect(T)
+                if worst is None or ud > worst[0]:
+                    worst = (ud, sd, vals, T)
+            if worst is None:
+                return {"reproduced": False, "note": "no finite evaluation"}
+            ud, sd, vals, T = worst
+            return {"reproduced": bool(ud > 1e-6 or sd > 1e-6), "function": f"RelativisticKMatrix.formulate(n_channels=2; n_poles=2; angular_momentum={ell}; phsp_factor=PhaseSpaceFactorAbs)",
+                    "input": {**vals, "pseudo_threshold_1": 0.9, "threshold_1": 1.3}, "expected": "max|S^dagger S - 1| = 0 and T = T^T", "observed": {"unitarity_defect": ud, "symmetry_defect": sd}}
+
+        return rep
+
+    for ell in ells[:3]:
+        rep = numeric_rep(ell)
+        r = rep()
+        chk.struct(f"abs_variant.unitary_with_pole_below_(pseudo-)threshold[L={ell}]", not r["reproduced"], FK + "RelativisticKMatrix.formulate", witness=r, replay=rep, bounded=True)
+        tr = KTr(f"abs{ell}", sqrt_mode="principal")
+        node = EnergyDependentWidth(s, m0, g0, m1, m2, ell, 1, PhaseSpaceFactorAbs)
+        v = chk.guarded(f"abs_variant.EnergyDependentWidth.doit[L={ell}]", lambda: tr.scalar(node.doit()), fn, replay=rep)
+        if v is None:
+            continue
+        wd = [c for _, c, _ in tr.wd]
+        sv, a, b, mv = (tr.scalar(x).re for x in (s, m1, m2, m0))
+        hyps = [C.thr_conds(tr, s, m1, m2), a > 0, b > 0, mv > 0, tr.scalar(g0).re > 0, mv * mv != (a + b) * (a + b), mv * mv != (a - b) * (a - b)] + wd + tr.hyps()
+        chk.smt(f"abs_variant.EnergyDependentWidth.real_for_every_pole_mass[L={ell}]", hyps, v.imz == 0, function=fn, replay=rep, tactics=("default", "nlsat"))
